@@ -88,11 +88,15 @@ func (w *World) standalone(op *Op) {
 		ret(int64(w.rls[op.Pol].TryReservePermits(op.N, op.Dur)), nil)
 	case "rl.acquire":
 		inv()
-		err := w.rls[op.Pol].AcquirePermitsWithMaxWait(context.Background(), op.N, op.Dur)
+		ctx, cancel := acquireCtx(op)
+		err := w.rls[op.Pol].AcquirePermitsWithMaxWait(ctx, op.N, op.Dur)
+		cancel()
 		ret(b2i(err == nil), err)
 	case "rl.acquire_nomax":
 		inv()
-		err := w.rls[op.Pol].AcquirePermits(context.Background(), op.N)
+		ctx, cancel := acquireCtx(op)
+		err := w.rls[op.Pol].AcquirePermits(ctx, op.N)
+		cancel()
 		ret(b2i(err == nil), err)
 	}
 }
@@ -111,4 +115,12 @@ func (w *World) observeBreaker(pol int) {
 	})
 	w.log.add(Event{Kind: EvStandalone, Str: "br.observe", Pos: pol, A: int64(st), B: int64(rem), L: 1, Exec: -2,
 		Attempts: int(m[0]), Executions: int(m[1]), Retries: int(m[2]), Hedges: int(m[3]), Aux: []int{int(m[4])}})
+}
+
+// acquireCtx is the context of a blocking standalone acquire: the caller gives up after op.CancelAt when that is set.
+func acquireCtx(op *Op) (context.Context, context.CancelFunc) {
+	if op.CancelAt > 0 {
+		return context.WithTimeout(context.Background(), op.CancelAt)
+	}
+	return context.Background(), func() {}
 }
